@@ -16,6 +16,7 @@ import LarkVerif.Serialize
 import LarkVerif.Threads
 import LarkVerif.Mangle
 import LarkVerif.Priority
+import LarkVerif.Recons
 import Std.Data.HashMap
 /-! Line-protocol driver: one JSON request per stdin line (`{"op": ...}`), one JSON answer per stdout line.
     Runs the *executable definitions the theorems are about*.  Not part of the proof library. -/
@@ -470,6 +471,10 @@ def handle (j : Json) : Except String Json := do
   | "shape" => runShape j
   | "embed" => runEmbed j
   | "cache" => runCache j
+  | "recons_join" =>
+    let items ← (← getArr j "items").mapM (·.getStr?)
+    let ids := (← getStr j "idchars").toList
+    pure (Json.str (String.ofList (ReconsProto.joinItems (fun c => ids.contains c) (items.map (·.toList)))))
   | "ao" =>
     let t ← aoOf (← j.getObjVal? "forest")
     let ds := PrioProto.derivs t
